@@ -19,6 +19,9 @@ fn main() {
         std::process::exit(2);
     }
     let cfg = util::parse_args(&args);
+    if cfg.prop.starts_with('C') || cfg.prop == "leakrun" {
+        util::install_panic_hook();
+    }
     let code = match cfg.prop.as_str() {
         "C02" => props::c02::run(&cfg),
         "C05" => props::c05::run(&cfg),
